@@ -100,6 +100,11 @@ _WORK = {}
 DEADLINE = [None]
 
 
+def expired():
+    """True once the safety-net deadline has passed: long worker loops poll it and hand back what they have."""
+    return DEADLINE[0] is not None and time.time() > DEADLINE[0]
+
+
 def _call(args):
     i, name, chunk = args
     fn = _WORK[name]
@@ -216,7 +221,7 @@ class Ctx:
             'traces_validated_against_impl': int(res.evals),
             'evaluations': int(res.evals), 'distinct_nontrivial': int(res.nontriv),
             'rule': self.rule, 'exhaustive': bool(self.exhaustive and not res.caps),
-            'bounds': self.bounds, 'caps_hit': res.caps,
+            'bounds': self.bounds, 'caps_hit': sorted(set(res.caps))[:20],
             'distinct_outcomes': len(res.out),
             'counters': {k: int(v) for k, v in sorted(res.ctr.items())},
             'maxima': {k: (round(v, 3) if isinstance(v, float) else v) for k, v in sorted(res.mx.items())},
